@@ -38,6 +38,9 @@ type loginPlan struct {
 	Encrypted bool   `json:"encrypted"`
 	KeyBits   int    `json:"key_bits"`
 	NonceLen  int    `json:"nonce_len"`
+	// NonceShape: "" a counting pattern; "zero-end" / "zero-start": the last / first byte is 0x00; "zeros": all
+	// bytes 0x00; "spaces-end": the last two bytes are blanks (a nonce is binary data: every byte counts)
+	NonceShape string `json:"nonce_shape,omitempty"`
 	Remote    int    `json:"remote"`
 	Phase1    []lPkg `json:"phase1"`
 	Phase2    []lPkg `json:"phase2"`
@@ -276,6 +279,7 @@ func genLoginPlan(r *Rand, encrypted bool) *loginPlan {
 	p.Phase1, p.Phase2 = loginBase(encrypted)
 	p.KeyBits = Pick(r, []int{1024, 1536, 2048})
 	p.NonceLen = Pick(r, []int{1, 8, 16, 32, 64, 1 + r.Intn(64)})
+	p.NonceShape = Pick(r, []string{"", "", "", "", "zero-end", "zero-start", "zeros", "spaces-end"})
 	// the nonce plus the 32-byte session key must fit into one RSA-OAEP/SHA-1 block, or no login can succeed
 	if max := p.KeyBits/8 - 42 - 32; p.NonceLen > max {
 		p.NonceLen = max
@@ -347,6 +351,21 @@ func (p *loginPlan) nonce() []byte {
 	n := make([]byte, p.NonceLen)
 	for i := range n {
 		n[i] = byte(0xA0 + i%16)
+	}
+	switch p.NonceShape {
+	case "zero-end":
+		n[len(n)-1] = 0
+	case "zero-start":
+		n[0] = 0
+	case "zeros":
+		for i := range n {
+			n[i] = 0
+		}
+	case "spaces-end":
+		n[len(n)-1] = ' '
+		if len(n) > 1 {
+			n[len(n)-2] = ' '
+		}
 	}
 	return n
 }
